@@ -1,6 +1,6 @@
 """C10 -- shared retry budget: at most max_retries retries per rolling window.
 
-(a) component histories consume(cost 1..3) / remaining() / advance(dt) on a real
+(a) component histories consume(cost 1..3) / remaining() / advance(dt) / cap re-tuned on a real
     Budget on the simulated clock (dyadic grid, advances biased to window_s
     exactly and +-1/8 s), refined step by step against RefBudget
 (b) 2..4 policy objects (sync sequence, or async concurrently running) sharing
@@ -51,6 +51,8 @@ def gen(seed, tier="quick"):
                 ops.append(["consume", r.choice([1, 1, 1, 2, 3])])
             elif x < 0.65:
                 ops.append(["remaining"])
+            elif x > 0.96:
+                ops.append(["set_max", r.choice([0, 1, 2, 3, 4, 6, 9])])     # cap re-tuned on the live budget
             else:
                 ops.append(["adv", max(0, r.choice([0, U, 2 * U, w, w - U, w + U, w // 2]))])
         return {"kind": "budget_hist", "grid": U, "seed": seed, "cfg": cfg, "ops": ops, "base_us": r.choice([0, 8 * U, 4096 * U])}
@@ -88,16 +90,20 @@ def gen(seed, tier="quick"):
            "clock": {"base_us": r.choice([0, 8 * U])}, "calls": calls}
     if conc:
         scn["concurrent"] = True
+    if r.random() < 0.25:
+        scn["place"]["budget_late"] = True     # policies built without a budget; the shared one is attached afterwards
     return scn
 
 
 def window_bound(grants, w, mx):
-    """grants: sorted instants (one per token).  For each t: #grants in (t-w, t] <= mx."""
+    """grants: sorted instants (one per token), or (instant, cap in force when granted) pairs.
+    For each t: #grants in (t-w, t] <= cap."""
+    grants = [g if isinstance(g, tuple) else (g, mx) for g in grants]
     lo = 0
-    for hi, t in enumerate(grants):
-        while grants[lo] <= t - w:
+    for hi, (t, cap) in enumerate(grants):
+        while grants[lo][0] <= t - w:
             lo += 1
-        if hi - lo + 1 > mx:
+        if hi - lo + 1 > cap:
             return t, hi - lo + 1
     return None
 
@@ -117,7 +123,7 @@ def execute(scn):
                     sig = "remaining() disagrees with the model"
                 viol.append(V("R1", sig, {"step": st, "cfg": cfg}))
                 break
-        wb = window_bound(sorted(grants), cfg["window_us"], cfg["max"])
+        wb = window_bound(grants, cfg["window_us"], cfg["max"])
         if wb is not None:
             viol.append(V("R2", "more than max_retries grants inside one window", {"at": wb[0], "count": wb[1], "cfg": cfg}))
         refused = sum(1 for s in steps if s["op"][0] == "consume" and not s["real"])
